@@ -10,6 +10,10 @@ Decided structural premises of the inductive argument (DESIGN.md section 3, C01)
  D4  the stencil contribution is +1 for an even and -1 for an odd stencil sum (parity domain)
  D5  the stencil is {0} iff level <= lmin else {0,-1}, per dimension, combined by the cross product
  D6  returned grids pair each level vector with its own coefficient and drop only zero coefficients
+ D7  enumeration budget: every call of getGrids passes a budget >= 1 over the enclosing loop ranges (given lmax >= lmin)
+ D8  simplex enumeration: getGrids(d, n) returns vectors with entries >= 1 and entry sum n + d - 1 (base case and the inductive
+     step are polynomial identities); both initialisers and the closed form shift every entry by lmin - 1 and use the budget
+     lmax - lmin + 1 - q; the closed-form coefficient is (-1)^q * binom(dim - 1, q)
 Not decided: coefficient sums, closed-form == adaptive initialisation (arithmetic over the whole index set)."""
 import ast
 
@@ -195,6 +199,7 @@ def run(prog, ctx):
 
     # ------------------------------------------------------------------ D7 enumeration precondition
     _check_getgrids_sites(prog, ctx, cs)
+    _check_simplex_enumeration(prog, ctx, cs)
 
 
 def _check_getgrids_sites(prog, ctx, cs):
@@ -266,6 +271,120 @@ def _check_getgrids_sites(prog, ctx, cs):
         tm = Terms(fi.node, max_depth=0)
         has = any(isinstance(st, ast.Assert) and tm.term(st.test) == ("cmp", "LtE", ("n", "lmin"), ("n", "lmax")) for st in fi.node.body)
         ctx.check(has, "C01.D7", R.key_of(fi, "asserts-lmax>=lmin"), fi.loc(), "asserts lmax >= lmin", "%s no longer asserts lmax >= lmin" % nm)
+
+
+def _check_simplex_enumeration(prog, ctx, cs):
+    from ..absint import poly_of_term, Poly
+    gg = cs.methods["getGrids"]
+    ctx.touch(gg)
+    tm = Terms(gg.node, max_depth=0)
+    c = cfg_of(gg)
+    dl, vl = gg.params[0], gg.params[1]
+    DL, VL = Poly.atom(("n", dl)), Poly.atom(("n", vl))
+    target = VL + DL - Poly.const(1)          # entry sum of every returned vector
+    problems = []
+    # base case
+    base_ok = False
+    for r in R.return_paths(gg)[0]:
+        guards = [g for (g, gn) in R.dominating_guards(gg, r, tm) if gn.kind == "test"]
+        t = tm.term(r.ast.value)
+        if norm_eq(("n", dl), ("c", "1")) in guards:
+            base_ok = t == ("list", ("list", ("n", vl)))
+    if not base_ok:
+        problems.append("the base case dim_left == 1 does not return [[values_left]]")
+    # inductive step: first entry f, recursive call getGrids(dl - 1, budget'): f + (budget' + (dl - 1) - 1) == vl + dl - 1, f >= 1
+    rec = [x for x in ast.walk(gg.node) if isinstance(x, ast.Call) and isinstance(x.func, ast.Attribute) and x.func.attr == "getGrids"]
+    step_ok = False
+    for x in rec:
+        if len(x.args) != 2:
+            continue
+        d2, b2 = poly_of_term(tm.term(x.args[0])), poly_of_term(tm.term(x.args[1]))
+        # the first entry: the single-element list concatenated in front
+        firsts = []
+        for b in tm.env.bindings.get("levelvector", []):
+            if b.kind == "assign" and isinstance(b.value, ast.List) and len(b.value.elts) == 1:
+                firsts.append(poly_of_term(tm.term(b.value.elts[0])))
+        loops = [l for l in R.enclosing_loops(x) if isinstance(l, ast.For) and isinstance(l.target, ast.Name)]
+        if not firsts or not loops:
+            continue
+        f = firsts[0]
+        total = f + b2 + d2 - Poly.const(1)
+        it = tm.term(loops[-1].iter)
+        full = it == ("call", ("n", "range"), (("n", vl),), ())
+        idx = Poly.atom(("n", loops[-1].target.id))
+        first_ge_1 = (f - idx) == Poly.const(1) or (f.is_const() and f.const_value() >= 1)
+        if d2 == DL - Poly.const(1) and total == target and full and first_ge_1:
+            step_ok = True
+        else:
+            problems.append("recursive step: first entry %r, rest getGrids(%r, %r) over %s does not keep the entry sum values_left + dim_left - 1 "
+                            "with entries >= 1" % (f, d2, b2, show(it)))
+    if not step_ok and not problems:
+        problems.append("no recursive step found")
+    ctx.check(not problems, "C01.D8", R.key_of(gg, "entry-sum-invariant"), gg.loc(),
+              "getGrids(d, n) enumerates the vectors with entries >= 1 and entry sum n + d - 1 (base case + inductive step)",
+              "getGrids: " + "; ".join(problems))
+    # users: shift by lmin - 1, budget lmax - lmin + 1 - q
+    for name in ("init_active_index_set", "init_old_index_set", "getCombiScheme"):
+        fi = cs.methods[name]
+        ctx.touch(fi)
+        tmf = Terms(fi.node, max_depth=0)
+        lminp = "lmin"
+        sub = ("op", "Sub", (("n", lminp), ("c", "1")))
+        calls = [x for x in ast.walk(fi.node) if isinstance(x, ast.Call) and isinstance(x.func, ast.Attribute) and x.func.attr == "getGrids"]
+        shift_ok = False
+        for n in ast.walk(fi.node):
+            if isinstance(n, (ast.ListComp, ast.Call)):
+                t = tmf.term(n)
+                # element-wise  l + (lmin - 1)   or  np.array(g) + ones * (lmin - 1)
+                for x in subterms(t):
+                    if x[0] == "op" and x[1] == "Add" and any(y == sub for y in x[2]):
+                        shift_ok = True
+                    if x[0] == "op" and x[1] == "Add" and any(y[0] == "op" and y[1] == "Mult" and sub in y[2] for y in x[2]):
+                        shift_ok = True
+        bud_ok = bool(calls)
+        for x in calls:
+            t = R.resolve_locals(fi, tmf.term(x.args[1]), cfg_of(fi).node_containing(x), tmf)
+            p_ = poly_of_term(t)
+            lm, lx = (((("n", "lmin"), 1),)), (((("n", "lmax"), 1),))
+            qterms = {k: v for k, v in p_.terms.items() if k not in ((), lm, lx)}
+            if not (p_.terms.get(lx) == 1 and p_.terms.get(lm) == -1 and p_.terms.get((), 0) == 1 and all(v == -1 for v in qterms.values()) and len(qterms) <= 1):
+                bud_ok = False
+        ctx.check(shift_ok and bud_ok, "C01.D8", R.key_of(fi, "shift-and-budget"), fi.loc(),
+                  "level vectors are enumerated with budget lmax - lmin + 1 - q and shifted by lmin - 1",
+                  "%s does not enumerate with budget lmax - lmin + 1 (- q) and shift every entry by lmin - 1 (shift found: %s, budget ok: %s)"
+                  % (fi.name, shift_ok, bud_ok))
+    # closed-form coefficient (-1)^q * binom(dim-1, q)
+    gcs = cs.methods["getCombiScheme"]
+    tmc = Terms(gcs.node, max_depth=0)
+    okc = False
+    for b in tmc.env.bindings.get("coefficient", []):
+        if b.kind != "assign":
+            continue
+        t = tmc.term(b.value)
+        loops = [l for l in R.enclosing_loops(b.stmt) if isinstance(l, ast.For) and isinstance(l.target, ast.Name)]
+        if not loops:
+            continue
+        q = ("n", loops[-1].target.id)
+        dm1 = ("op", "Sub", (("a", ("n", "self"), "dim"), ("c", "1")))
+        fact = lambda z: ("call", ("a", ("n", "math"), "factorial"), (z,), ())
+        sign = ("op", "Pow", (("c", "-1"), q))
+        binom1 = ("op", "Div", (fact(dm1), ("op", "Mult", tuple(sorted((fact(q), fact(("op", "Sub", (dm1, q)))), key=repr)))))
+        form1 = ("op", "Div", (("op", "Mult", tuple(sorted((sign, fact(dm1)), key=repr))), ("op", "Mult", tuple(sorted((fact(q), fact(("op", "Sub", (dm1, q)))), key=repr)))))
+        comb = ("call", ("a", ("n", "math"), "comb"), (dm1, q), ())
+        form2 = ("op", "Mult", tuple(sorted((sign, comb), key=repr)))
+        form3 = ("op", "Mult", tuple(sorted((sign, binom1), key=repr)))
+        it = tmc.term(loops[-1].iter)
+        rng_ok = it[0] == "call" and it[1] == ("n", "range") and len(it[2]) == 1 and it[2][0][0] == "call" and it[2][0][1] == ("n", "min") and \
+            ("a", ("n", "self"), "dim") in it[2][0][2]
+        okc = t in (form1, form2, form3) and rng_ok
+    ctx.check(okc, "C01.D8", R.key_of(gcs, "closed-form-coefficient"), gcs.loc(),
+              "closed-form coefficient is (-1)^q * binom(dim-1, q) for q in range(min(dim, lmax-lmin+1))",
+              "the closed-form coefficient of getCombiScheme is no longer (-1)**q * (dim-1)! / (q! (dim-1-q)!) over q in range(min(dim, ...))")
+
+
+def norm_eq(a, b):
+    from ..terms import norm_cmp
+    return norm_cmp("Eq", a, b)
 
 
 def _asserts_state(fi, callee_name):
